@@ -2,9 +2,9 @@
 package c10
 
 import (
-	crand "crypto/rand"
 	"bytes"
 	"context"
+	crand "crypto/rand"
 	"errors"
 	"fmt"
 	"sort"
@@ -40,16 +40,17 @@ type rec struct {
 }
 
 type recipe struct {
-	Sender string `json:"payload_encrypted_with_key_of"`
-	Ident  string `json:"identified_by_key_of"`
-	NodeID string `json:"node_id"`
-	Inner  string `json:"inner_request"`
-	Lookup string `json:"lookup_result"`
-	AuthBy string `json:"model_authenticating_record"`
-	Via    string `json:"via"`
-	Expect string `json:"model_says"`
-	Got    string `json:"got"`
-	CallerState bool `json:"caller_passes_state_option,omitempty"`
+	Sender         string `json:"payload_encrypted_with_key_of"`
+	Ident          string `json:"identified_by_key_of"`
+	NodeID         string `json:"node_id"`
+	Inner          string `json:"inner_request"`
+	Lookup         string `json:"lookup_result"`
+	AuthBy         string `json:"model_authenticating_record"`
+	Via            string `json:"via"`
+	Expect         string `json:"model_says"`
+	Got            string `json:"got"`
+	CallerState    bool   `json:"caller_passes_state_option,omitempty"`
+	InnerRewrapped bool   `json:"inner_request_carries_rewrapped_info,omitempty"`
 }
 
 func TestProp_Rotation(t *testing.T) {
@@ -279,6 +280,21 @@ func TestProp_Rotation(t *testing.T) {
 					inner.BundleSignature = append([]byte(nil), inner.BundleSignature...)
 					inner.BundleSignature[3] ^= 0x10
 				}
+				// the inner request may carry re-wrapped registration info of its own (the
+				// rotating node seals it with its current key and names itself): that changes
+				// nothing about what is honored and what is refused
+				if rapid.IntRange(0, 3).Draw(t, "innerCarriesRewrappedInfo") == 0 && (rp.Inner == "fresh" || rp.Inner == "token-nonce") && senderRec != nil && senderRec.actor == sender && records[senderRec.name] == senderRec {
+					fi := new(types.FetchNodeCredentialsInfo)
+					if proto.Unmarshal(inner.Bundle, fi) == nil {
+						blob, berr := nodeenrollment.EncryptMessage(w.Ctx, &types.WrappingRegistrationFlowInfo{CertificatePublicKeyPkix: fi.CertificatePublicKeyPkix, Nonce: fi.Nonce}, sender.Creds)
+						if berr == nil {
+							inner = proto.Clone(inner).(*types.FetchNodeCredentialsRequest)
+							inner.RewrappedWrappingRegistrationFlowInfo, inner.RewrappingKeyId = blob, sender.KeyID
+							flags["inner-carries-rewrapped-info"] = true
+							rp.InnerRewrapped = true
+						}
+					}
+				}
 				payload, err := nodeenrollment.EncryptMessage(w.Ctx, inner, sender.Creds)
 				if err != nil {
 					t.Fatalf("encrypt payload: %v", err)
@@ -408,8 +424,15 @@ func TestProp_Rotation(t *testing.T) {
 					vkit.Violate(t, prop, "C10/new-record-missing", lerr.Error(), detail)
 					return
 				}
+				carried := auth.state
 				if !proto.Equal(ni.State, auth.state) {
-					vkit.Violate(t, prop, "C10/state-not-carried", fmt.Sprintf("new record does not carry the state of the authenticating record %s", auth.name), detail)
+					key := "C10/state-not-carried"
+					if rp.InnerRewrapped {
+						// (its own class: a listed known finding, see known_findings.json)
+						key = "C10/state-not-carried/inner-carries-rewrapped-info"
+					}
+					vkit.Violate(t, prop, key, fmt.Sprintf("new record does not carry the state of the authenticating record %s", auth.name), detail)
+					carried = ni.State // keep the model in step with what is stored
 				}
 				// the reply opens only with the authenticating record's CURRENT key pair
 				innerResp := new(types.FetchNodeCredentialsResponse)
@@ -444,7 +467,7 @@ func TestProp_Rotation(t *testing.T) {
 				}
 				usedInner = append(usedInner, inner)
 				usedBy = append(usedBy, nw.Name)
-				nr := &rec{name: nw.Name, actor: nw, state: auth.state, gen: auth.gen + 1}
+				nr := &rec{name: nw.Name, actor: nw, state: carried, gen: auth.gen + 1}
 				records[nw.Name] = nr
 				if nr.gen >= 2 {
 					flags["chain>=2"] = true
